@@ -121,6 +121,15 @@ class Calls:
             pass
         if isinstance(seq, VTuple) and not stars:
             return self.call_sv(f, list(seq.items), named, st, node)
+        if isinstance(f, VFunc) and seq is not None and not stars and f.node.args.vararg is not None \
+                and not (f.node.args.posonlyargs + f.node.args.args)[(1 if (f.self_sv is not None and not self.is_staticmethod(f.node)) else 0):]:
+            # f(*seq, **named) where f only has *varargs: the vararg IS the sequence
+            key = f'{f.module}:{f.qual}'
+            con = self.contracts.get(key)
+            if con is not None:
+                vt = self.toVal(seq, st)
+                seqv = VVal(vt, kind='seq')
+                return self.apply_contract(con, f, None if self.is_staticmethod(f.node) else f.self_sv, [], named, st, node, vararg=seqv)
         if isinstance(f, VClass) and f.name in th.exc:
             ev_ = th.fn('mkexc_v', th.Exc, th.Val, th.Val)(th.exc[f.name], self.toVal(seq, st) if seq is not None else th.NoneV)
             return [(VExc(th.exc[f.name], ev_, f'raise:{f.name}'), st)]
@@ -400,10 +409,12 @@ class Calls:
             res.append((r, State(dict(saved[3]) if len(out) > 1 else saved[3], s.pc, s.notes)))
         return res
 
-    def apply_contract(self, con, f: VFunc, self_sv, args, kwargs, st, node):
+    def apply_contract(self, con, f: VFunc, self_sv, args, kwargs, st, node, vararg=None):
         """Modular call: the callee is represented by its sidecar contract only."""
         th = self.th
         env = self.bind_params(f.node, args, kwargs, st, self_sv=self_sv, module=f.module)
+        if vararg is not None:
+            env[f.node.args.vararg.arg] = vararg
         pnames = [p.arg for p in f.node.args.posonlyargs + f.node.args.args + f.node.args.kwonlyargs]
         if f.node.args.vararg is not None:
             pnames.append(f.node.args.vararg.arg)
